@@ -339,6 +339,46 @@ end DList
 /-! ## What the admitted answers mean (clauses of the statement, as facts about the specification) -/
 namespace Clauses
 
+/-- The functional successor is admitted … -/
+theorem next_allowed (sv : Bool) (xs : List Int) (op : Op) :
+    Allowed sv xs op (next sv xs op).1 (next sv xs op).2 := by
+  cases op <;> simp only [Allowed, next] <;> (repeat' split) <;> simp_all
+
+/-- … and wherever the specification leaves no choice (anything but `Shift` on a list of one element) it is the
+ONLY admitted outcome: judging a quiet operation by `next` is judging it by `Allowed`. -/
+theorem allowed_eq_next {sv : Bool} {xs xs' : List Int} {op : Op} {ans : Ans}
+    (h : Allowed sv xs op ans xs') (hs : op ≠ .shift ∨ xs.length > 1) :
+    (ans, xs') = next sv xs op := by
+  cases op <;> simp only [Allowed, next] at * <;> (repeat' split at h) <;> (repeat' split) <;> simp_all
+
+/-- the operations a `fill a n` line stands for -/
+def fillOps (a : Int) : Nat → List Op
+  | 0 => []
+  | n + 1 => .unshift a :: fillOps (a + 1) n
+
+/-- the sequence after a history: the last observed one -/
+def finalSeq (xs : List Int) (obs : List (Ans × List Int)) : List Int := (obs.getLast?.map (·.2)).getD xs
+
+/-- `fill a n` is `n` admitted `unshift` steps (all answering `ok`) that end in `fillFront a n xs` -/
+theorem fillFront_steps (sv : Bool) (a : Int) (n : Nat) (xs : List Int) :
+    ∃ obs, Holds sv xs (fillOps a n) obs ∧ finalSeq xs obs = fillFront a n xs ∧ ∀ o ∈ obs, o.1 = .ok := by
+  induction n generalizing a xs with
+  | zero => exact ⟨[], by simp [Holds, fillOps], by simp [finalSeq, fillFront], by simp⟩
+  | succ n ih =>
+    obtain ⟨obs, ho, hl, hk⟩ := ih (a + 1) (a :: xs)
+    refine ⟨(.ok, a :: xs) :: obs, ?_, ?_, ?_⟩
+    · simp only [fillOps, Holds, Allowed, and_self, true_and]; exact ho
+    · cases obs with
+      | nil => simpa [finalSeq, fillFront] using hl
+      | cons o os =>
+        have hne : (o :: os).getLast? = some ((o :: os).getLast (by simp)) := List.getLast?_eq_some_getLast (by simp)
+        simp only [finalSeq, fillFront, List.getLast?_cons_cons, hne, Option.map_some, Option.getD_some] at hl ⊢
+        exact hl
+    · intro o h
+      rcases List.mem_cons.mp h with rfl | h
+      · rfl
+      · exact hk o h
+
 theorem insertAfterFirst_sublist (x v : Int) (xs : List Int) : xs.Sublist (insertAfterFirst x v xs) := by
   induction xs with
   | nil => exact List.Sublist.refl _
